@@ -670,7 +670,7 @@ func ruleCAPACITY(p *Program, rep *Report) {
 // ruleUNDOJOURNAL: every pre-commit mutation of allocator state is paired with a journal entry that
 // Rollback reads.
 func ruleUNDOJOURNAL(p *Program, rep *Report) {
-	rep.Rule("UNDO-JOURNAL", 4, "pre-commit mutations of allocator.metaTotal / meta freelist growth are journaled in txAreaManageState.moveToMeta in the same function, end markers are snapshotted by makeTxAllocState, and allocator.Rollback reads every journal and writes the class back")
+	rep.Rule("UNDO-JOURNAL", 8, "pre-commit mutations of allocator.metaTotal / meta freelist growth are journaled in txAreaManageState.moveToMeta in the same function, end markers are snapshotted by makeTxAllocState, and allocator.Rollback reads every journal and writes the class back")
 	v := newAllocVocab(p)
 	commitFns := staticReach(p, p.Method("txfile", "allocator", "Commit"))
 	loaders := staticReach(p, p.Func("txfile", "readAllocatorState"))
@@ -771,6 +771,56 @@ func ruleUNDOJOURNAL(p *Program, rep *Report) {
 			rep.OK("UNDO-JOURNAL", key, p.Pos(rollback.Pos()), "")
 		} else {
 			rep.Bad("UNDO-JOURNAL", key, p.Pos(rollback.Pos()), "allocator.Rollback no longer "+n.what)
+		}
+	}
+	// (d) every journal entry is undone: in each loop over a journal the meta page total and the meta free
+	// list are changed on every iteration (no entry is skipped)
+	effs := p.Effects()
+	for _, f := range sortedFns(rbReach) {
+		var pd map[*ssa.BasicBlock]map[*ssa.BasicBlock]bool
+		for _, b := range f.Blocks {
+			for _, ins := range b.Instrs {
+				ia, ok := ins.(*ssa.IndexAddr)
+				if !ok {
+					continue
+				}
+				jf := loadedField(ia.X)
+				if jf == nil || !journalFields[jf] {
+					continue
+				}
+				if pd == nil {
+					pd = postDominators(f)
+				}
+				for _, what := range []struct {
+					f    *types.Var
+					name string
+				}{{v.fMetaTotal, "allocator.metaTotal"}, {v.fRegions, "the meta free list"}} {
+					every := false
+					for _, b2 := range f.Blocks {
+						if b2 != b && !pd[b][b2] {
+							continue
+						}
+						for _, in2 := range b2.Instrs {
+							if st, ok := in2.(*ssa.Store); ok && addrField(st.Addr) == what.f {
+								every = true
+							}
+							if c, ok := in2.(ssa.CallInstruction); ok {
+								if sc := c.Common().StaticCallee(); sc != nil && p.InRepo(sc) {
+									if e := effs.Of(sc); e != nil && e.mods[what.f] {
+										every = true
+									}
+								}
+							}
+						}
+					}
+					key := "allocator.Rollback|every-entry|" + jf.Name() + "|" + what.name
+					if every {
+						rep.OK("UNDO-JOURNAL", key, p.InstrPos(ins), "undone for every journal entry")
+					} else {
+						rep.Bad("UNDO-JOURNAL", key, p.InstrPos(ins), "the undo loop over txAreaManageState."+jf.Name()+" does not restore "+what.name+" for every entry (an entry can be skipped): after an aborted transaction the meta area keeps counting pages it no longer owns")
+					}
+				}
+			}
 		}
 	}
 	// returns allocated pages to the freelists
